@@ -26,15 +26,15 @@ import (
 // (Also C07's tunnel part: the backend connection count returns to zero.)
 
 type c47Case struct {
-	ID      int    `json:"id"`
-	Kind    string `json:"kind"`  // ws | wss | stream
-	Lc      int    `json:"lc"`    // bytes client -> backend
-	Lb      int    `json:"lb"`    // bytes backend -> client
-	Early   int    `json:"early"` // client bytes sent in the same write as the upgrade request (ws/wss)
-	BEarly  int    `json:"bearly"` // backend bytes sent in the same write as the 101 response (ws/wss)
-	Chunk   int    `json:"chunk"` // write size
-	Closer  string `json:"closer"` // client | backend
-	Reset   bool   `json:"reset"`  // closer closes with RST
+	ID     int    `json:"id"`
+	Kind   string `json:"kind"`   // ws | wss | stream
+	Lc     int    `json:"lc"`     // bytes client -> backend
+	Lb     int    `json:"lb"`     // bytes backend -> client
+	Early  int    `json:"early"`  // client bytes sent in the same write as the upgrade request (ws/wss)
+	BEarly int    `json:"bearly"` // backend bytes sent in the same write as the 101 response (ws/wss)
+	Chunk  int    `json:"chunk"`  // write size
+	Closer string `json:"closer"` // client | backend
+	Reset  bool   `json:"reset"`  // closer closes with RST
 }
 
 func tok(id, dir, i int) byte { return byte(i*131 + id*7 + dir*101 + (i >> 8)) }
@@ -80,9 +80,9 @@ type c47Tunnel struct {
 
 // c47Backend accepts tunnel connections and hands them to the test by id.
 type c47Backend struct {
-	ln   net.Listener
-	mu   sync.Mutex
-	wait map[int]chan *c47Tunnel
+	ln     net.Listener
+	mu     sync.Mutex
+	wait   map[int]chan *c47Tunnel
 	bearly map[int]int
 }
 
